@@ -219,6 +219,19 @@ impl World {
     self.send(k, &bytes).await;
   }
 
+  /// C2S only: something is routed to connection `k`'s user (a MOD_DIRECT frame with a one-byte payload through the real
+  /// router, as a direct message or a channel delivery would be) — traffic to the peer, not activity of the peer
+  pub async fn push(&mut self, k: usize) {
+    let Mgr::C2s(s) = &self.mgr else { return };
+    let name = if !self.cfg.auth && k == 1 { "sentinel".to_string() } else { format!("user{k}") };
+    let pool = narwhal_util::pool::Pool::new(1, 8);
+    let mut b = pool.acquire_buffer().await;
+    b.as_mut_slice()[0] = b'p';
+    let payload = b.freeze(1);
+    let msg = Message::ModDirect(narwhal_protocol::ModDirectParameters { id: None, from: "localhost".into(), length: 1 });
+    let _ = s.router.route_to(msg, Some(payload), name.as_str().into(), None);
+  }
+
   pub async fn pong(&mut self, k: usize, n: usize) {
     let id = {
       let Some(e) = self.ends.get(&k) else { return };
@@ -316,6 +329,7 @@ impl World {
             format!("PING#{}", e.ping_ids.len())
           },
           Message::ListChannelsAck(_) | Message::S2mForwardEventAck(_) | Message::M2sModDirectAck(_) => "REPLY".to_string(),
+          Message::ModDirect(_) => "PUSH".to_string(),
           Message::Error(p) => {
             let r: &str = p.reason.as_ref();
             if r == "USERNAME_IN_USE" {
@@ -382,6 +396,7 @@ pub async fn run_script(cfg: TCfg, script: &str) -> String {
       "auth" => w.auth(num(1) as usize, tk.get(2) == Some(&"ok")).await,
       "req" => w.req(num(1) as usize).await,
       "pong" => w.pong(num(1) as usize, num(2) as usize).await,
+      "push" => w.push(num(1) as usize).await,
       "close" => w.close(num(1) as usize),
       "stall" => w.stall(num(1) as usize, true),
       "unstall" => w.stall(num(1) as usize, false),
@@ -680,7 +695,7 @@ pub async fn run_suite(seed: u64, cases: usize, mode: &str) -> String {
       minka: minka.max(1),
       pipe: 1 << 20,
     };
-    let scenario = if mode == "random" { *r.pick(&["random", "random", "silent", "active", "shutdown"]) } else { mode };
+    let scenario = if mode == "random" { *r.pick(&["random", "random", "silent", "active", "shutdown", "listener"]) } else { mode };
     let mut w = World::new(cfg.clone()).await;
     let _ = writeln!(t, "case {case}");
     let _ = writeln!(t, "{}", cfg.line());
@@ -768,7 +783,7 @@ pub async fn run_suite(seed: u64, cases: usize, mode: &str) -> String {
     }
     let steps = match scenario {
       "silent" => r.range(6, 12),
-      "active" => r.range(14, 30),
+      "active" | "listener" => r.range(14, 30),
       _ => r.range(10, 30),
     };
     let mut did_shutdown = false;
@@ -839,7 +854,18 @@ pub async fn run_suite(seed: u64, cases: usize, mode: &str) -> String {
           w.auth(k, false).await;
           op!(format!("auth {k} retry"));
         },
-        Ph::Authed if choice < (if scenario == "active" { 60 } else { 20 }) => {
+        // a listener: sends nothing itself while traffic keeps arriving for it, more often than once per interval
+        Ph::Authed if cfg.link == Link::C2s && choice < (if scenario == "listener" { 85 } else { 12 }) => {
+          w.push(k).await;
+          op!(format!("push {k}"));
+          if scenario == "listener" {
+            let hb = hbs.get(&k).copied().unwrap_or(cfg.ka).max(2);
+            let dt = r.range(1, hb - 1);
+            w.advance(dt, &mut ent).await;
+            op!(format!("adv {dt}"));
+          }
+        },
+        Ph::Authed if scenario != "listener" && choice < (if scenario == "active" { 60 } else { 32 }) => {
           let tn = w.now();
           orc.c(k).reqs.push(tn);
           w.req(k).await;
@@ -851,7 +877,7 @@ pub async fn run_suite(seed: u64, cases: usize, mode: &str) -> String {
             op!(format!("adv {dt}"));
           }
         },
-        Ph::Authed if choice < (if scenario == "silent" { 30 } else { 50 }) => {
+        Ph::Authed if choice < (if scenario == "silent" { 42 } else if scenario == "listener" { 90 } else { 62 }) => {
           let have = w.ends.get(&k).map(|e| e.ping_ids.len()).unwrap_or(0);
           let n = match r.below(6) {
             0 => 0,
